@@ -947,19 +947,23 @@ def run(chk, F, which):
             counts[r[0]] = counts.get(r[0], 0) + 1
             continue
         es = by_fn_what.get((normfn(k[0]), k[1]), [])
-        e = None
+        # several lines may justify sites of the same kind in one function (each with its own machine-checked backing): the site is
+        # justified by the first line with quota left whose backing holds for *this* site
+        e, why, failed = None, "", None
         for cand in es:
             if used.get(id(cand), 0) < cand.get("n", 1):
-                e = cand
-                break
+                ok, why_ = backing_holds(F, s, cand)
+                if ok:
+                    e, why = cand, why_
+                    break
+                failed = failed or (cand, why_)
         if e is not None:
             used[id(e)] = used.get(id(e), 0) + 1
-            ok, why = backing_holds(F, s, e)
-            if ok:
-                chk.ok("panic-site", fk, summary, where, "D8 justified: %s%s" % (e["reason"], (" [checked: %s]" % why) if why else ""))
-                counts["D8"] = counts.get("D8", 0) + 1
-                continue
-            chk.finding("panic-site", fk, summary, where, "the justification `%s` no longer holds: %s" % (e["reason"][:100], why),
+            chk.ok("panic-site", fk, summary, where, "D8 justified: %s%s" % (e["reason"], (" [checked: %s]" % why) if why else ""))
+            counts["D8"] = counts.get("D8", 0) + 1
+            continue
+        if failed is not None:
+            chk.finding("panic-site", fk, summary, where, "the justification `%s` no longer holds: %s" % (failed[0]["reason"][:100], failed[1]),
                         path=G.path_to(reach, s.fn.id))
             continue
         chk.finding("panic-site", fk, summary, where,
@@ -1076,6 +1080,165 @@ def _only_callers(allowed):
         bad = [c for c in callers if not any(c == a or c.startswith(a + "::{closure") for a in allowed)]
         return (not bad), ("callers: %s" % callers if not bad else "unexpected callers %s" % bad)
     return chk
+
+
+I32 = (-(1 << 31), (1 << 31) - 1)
+
+
+def ival(F, fn, ap, depth=0, bb=None):
+    """Interval of an integer access path, or None when nothing bounds it (bb: the block whose dominating guards may be used).  Sources of bounds: constants; the Some payload of
+    datetime::parse_range / the Ok payload of numeric_match (their RangeInclusive argument; parse_range's body is checked to filter
+    with range.contains); the Some payload of parse_fixed(_, d) with a constant digit count d (|v| < 10^d); locals all of whose
+    definitions are constants; and interval arithmetic over Add, Sub, Mul, Div, Rem."""
+    if depth > 8:
+        return None
+    r, pr = ap
+    if r[0] == "const" and isinstance(r[1], int) and not pr:
+        return (r[1], r[1])
+    if r[0] == "local" and pr in ((), ("0",)):
+        lo = hi = None
+        for d in fn.defs().get(r[1], []):
+            c = None
+            if d[0] == "stmt" and d[3].get("k") == "use":
+                c = const_int(d[3]["a"])
+            elif d[0] == "stmt" and d[3].get("k") == "agg" and len(d[3].get("ops", [])) >= 1 and pr == ("0",):
+                c = const_int(d[3]["ops"][0])
+            if c is None:
+                return None
+            lo = c if lo is None else min(lo, c)
+            hi = c if hi is None else max(hi, c)
+        return (lo, hi) if lo is not None else None
+    if r[0] == "binop" and pr in ((), ("0",)):
+        op = r[1].replace("WithOverflow", "")
+        a, b = ival(F, fn, r[2], depth + 1, bb), ival(F, fn, r[3], depth + 1, bb)
+        if op == "Rem" and b is not None and b[0] == b[1] and b[0] > 0:
+            m = b[0] - 1
+            if a is not None and a[0] >= 0:
+                return (0, min(m, a[1]))
+            return (-m, m)
+        if a is None or b is None:
+            return None
+        if op == "Add":
+            return (a[0] + b[0], a[1] + b[1])
+        if op == "Sub":
+            return (a[0] - b[1], a[1] - b[0])
+        if op == "Mul":
+            c = [x * y for x in a for y in b]
+            return (min(c), max(c))
+        if op == "Div" and b[0] == b[1] and b[0] > 0:
+            q = [int(x / b[0]) for x in a]
+            return (min(q), max(q))
+        return None
+    if r[0] == "call":
+        name, args = r[1], r[2]
+
+        def rng(x):
+            rr = x[0]
+            if rr[0] == "call" and rr[1].endswith("RangeInclusive::<Idx>::new") and not x[1]:
+                lo, hi = ival(F, fn, rr[2][0], depth + 1), ival(F, fn, rr[2][1], depth + 1)
+                if lo and hi and lo[0] == lo[1] and hi[0] == hi[1]:
+                    return (lo[0], hi[0])
+            return None
+        if name == "parsing::datetime::parse_range" and pr == ("as Some", "0") and _parse_range_filters(F):
+            return rng(args[2])
+        if name == "parsing::datetime::numeric_match" and pr == ("as Ok", "0") and _parse_range_filters(F):
+            return rng(args[3])
+        if name == "parsing::datetime::parse_fixed" and pr == ("as Some", "0"):
+            d = ival(F, fn, args[1], depth + 1)
+            if d and d[0] == d[1] and 1 <= d[0] <= 9:
+                return (-(10 ** d[0] - 1), 10 ** d[0] - 1)
+        # unwrap(iN::from_str(S)) / from_str(S) as Ok.0 where `S.len() == k` dominates: |v| < 10^k
+        inner = None
+        if name.endswith("Result::<T, E>::unwrap") and not pr and args and args[0][0][0] == "call" and not args[0][1]:
+            inner = args[0][0]
+        elif pr == ("as Ok", "0"):
+            inner = r
+        if inner is not None and bb is not None and "core::str::traits::FromStr for i" in inner[1] and inner[1].endswith("::from_str"):
+            src = inner[2][0]
+            while src[0][0] == "call" and src[0][1].endswith(("Clone>::clone", "Deref>::deref", "::as_str", "Borrow<str>>::borrow")) and not src[1]:
+                src = src[0][2][0]
+            for g in fn.guards_of(bb):
+                d = fn.guard_desc(g)
+                if d[0] == "bool" and d[2] is True and d[1][0][0] == "binop" and d[1][0][1] == "Eq" and not d[1][1]:
+                    x, y = d[1][0][2], d[1][0][3]
+                    if y[0][0] == "const" and isinstance(y[0][1], int) and 1 <= y[0][1] <= 18 and x[0][0] == "call" and x[0][1].endswith("String::len") and x[0][2][0] == src:
+                        k_ = y[0][1]
+                        return (-(10 ** k_ - 1), 10 ** k_ - 1)
+    return None
+
+
+_prf = {}
+
+
+def _parse_range_filters(F):
+    """parse_range(value, digits, range) = parse_fixed(..).filter(|v| range.contains(v)); numeric_match returns parse_range's value."""
+    if "v" not in _prf:
+        ok = False
+        try:
+            pr = F.find(CORE, "parsing::datetime::parse_range")
+            calls = [t["callee"]["path"] for bb, t in pr.calls() if "callee" in t]
+            clo = [c for c in F.closures_of(pr)]
+            ok = any(c.endswith("Option::<T>::filter") for c in calls) and len(clo) == 1 and \
+                any("callee" in t and t["callee"]["path"].endswith("RangeInclusive::<Idx>::contains") for bb, t in clo[0].calls())
+            nm = F.find(CORE, "parsing::datetime::numeric_match")
+            ok = ok and any("callee" in t and t["callee"]["path"] == "parsing::datetime::parse_range" for bb, t in nm.calls())
+        except AnchorLost:
+            ok = False
+        _prf["v"] = ok
+    return _prf["v"]
+
+
+def _i32_interval(F, s, e):
+    """Overflow assert of an i32/u32 Add/Sub/Mul: both operands have intervals and the result stays inside the type."""
+    m = s.term["msg"]
+    fn = s.fn
+    a, b = ival(F, fn, fn.apath(m["a"]), 0, s.bb), ival(F, fn, fn.apath(m["b"]), 0, s.bb)
+    if a is None or b is None:
+        return False, "operand %s is not bounded by a constant, a range-checked parse or arithmetic on such values" % ap_str(fn.apath(m["a"] if a is None else m["b"]))[:100]
+    op = m["op"]
+    if op == "Add":
+        r = (a[0] + b[0], a[1] + b[1])
+    elif op == "Sub":
+        r = (a[0] - b[1], a[1] - b[0])
+    elif op == "Mul":
+        c = [x * y for x in a for y in b]
+        r = (min(c), max(c))
+    else:
+        return False, "operator %s" % op
+    bits = INT_BITS.get(m.get("aty"), 0)
+    lim = ((-(1 << (bits - 1)), (1 << (bits - 1)) - 1) if str(m.get("aty", "")).startswith("i") else (0, (1 << bits) - 1)) if bits else None
+    ok = lim is not None and lim[0] <= r[0] and r[1] <= lim[1]
+    return ok, ("operands in %s and %s, result in [%d, %d]" % (list(a), list(b), r[0], r[1]))
+
+
+def _sign_times_parsed(F, s, e):
+    """`value * sign`: one operand is a local whose definitions are the constants 1 and -1, the other the Ok payload of
+    i32::from_str_radix: the product overflows only for i32::MIN * -1, and a Number token has no sign character."""
+    m = s.term["msg"]
+    fn = s.fn
+    aps = [fn.apath(m["a"]), fn.apath(m["b"])]
+    sign = [x for x in aps if ival(F, fn, x) is not None and -1 <= ival(F, fn, x)[0] and ival(F, fn, x)[1] <= 1]
+    parsed = [x for x in aps if x[0][0] == "call" and x[0][1].endswith("<impl i32>::from_str_radix") and x[1] == ("as Ok", "0")]
+    ok = m["op"] == "Mul" and len(sign) == 1 and len(parsed) == 1
+    return ok, ("a parsed i32 times a sign in {-1, 1}" if ok else "operands are %s" % [ap_str(x)[:60] for x in aps])
+
+
+def _nanos_scaling(F, s, e):
+    """`nsecs * 10u32.pow(9 - f.len())` with nsecs parsed from the same string f: nsecs < 10^len(f), so the product is < 10^9."""
+    m = s.term["msg"]
+    fn = s.fn
+    a, b = fn.apath(m["a"]), fn.apath(m["b"])
+    sa, sb = ap_str(a), ap_str(b)
+    import re as _re
+    ok = m["op"] == "Mul" and "<impl u32>::from_str_radix" in sa and b[0][0] == "call" and b[0][1].endswith("<impl u32>::pow") and b[0][2][0][0] == ("const", 10)
+    if ok:
+        ex = b[0][2][1]
+        ok = ex[0][0] == "binop" and ex[0][1].startswith("Sub") and ex[0][2][0] == ("const", 9) and "String::len(" in ap_str(ex[0][3])
+        # the string whose length is taken is the one that was parsed (second component of the Number token)
+        if ok:
+            lens = _re.findall(r"String::len\((.*)\)", ap_str(ex[0][3]))
+            ok = bool(lens) and lens[0][:80] in sa
+    return ok, ("nanoseconds parsed from f, scaled by 10^(9 - len(f))" if ok else "operands are %s * %s" % (sa[:60], sb[:60]))
 
 
 def _unit_name_constant_rational(F, s, e):
@@ -1574,6 +1737,9 @@ def _operands_reset_to_one(F, s, e):
 
 BACKING = {
     "unit_name_constant_rational": _unit_name_constant_rational,
+    "i32_interval": _i32_interval,
+    "sign_times_parsed": _sign_times_parsed,
+    "nanos_scaling": _nanos_scaling,
     "duration_list_six": _duration_list_six,
     "search_results_resolve": _search_results_resolve,
     "symbol_invariant": _symbol_invariant,
